@@ -261,12 +261,19 @@ impl<'tcx> Cx<'tcx> {
                 Const::Val(v, _) => Some(*v),
                 Const::Unevaluated(u, _) => {
                     // never evaluate generic-dependent constants
-                    if u.args.iter().any(|a| {
+                    if u.promoted.is_some() {
+                        None
+                    } else if u.args.iter().any(|a| {
                         use rustc_middle::ty::TypeVisitableExt;
                         a.has_non_region_param()
-                    }) || u.promoted.is_some()
-                    {
-                        None
+                    }) {
+                        // a const item nested in a generic fn inherits its generics but rarely depends on them:
+                        // evaluate it polymorphically (fails cleanly with TooGeneric when it does depend on them)
+                        if matches!(tcx.def_kind(u.def), DefKind::Const { .. }) {
+                            tcx.const_eval_poly(u.def).ok()
+                        } else {
+                            None
+                        }
                     } else {
                         tcx.const_eval_resolve(env, *u, span).ok()
                     }
